@@ -27,6 +27,8 @@ def exec_case(engine, case, keep_events=0):
     core.SimRandom.seed_tape(core.tape_seed(case["seed"]))
     core.install_inert_progress()
     err = None
+    if os.environ.get("VERIF_SELFTEST_LEAK"):       # self-test of the determinism self-test: a hash-seed dependent event
+        ctx.log("leak", hash("leak") % 1000)
     try:
         with core.quiet():
             engine.run(case, ctx)
